@@ -569,6 +569,73 @@ func lockMutexMain(args []string) {
 			}
 		}()
 	}
+	// ---------------- W5: a contender gives up (its context ends) while its attempt is in flight ----------------
+	for _, backend := range []string{"mem", "os"} {
+		for _, how := range []string{"Lock+cancel", "LockWithTimeout"} {
+			func() {
+				w := newLockWorld(backend, []int{0, 1, 2}, false)
+				defer w.cleanup()
+				caseTxt := fmt.Sprintf("lockcase w5-contender-gives-up-during-its-attempt %s %s", how, backend)
+				if err := w.locks[0].TryLock(ctx); err != nil {
+					rep.Fail(hx.Failure{Kind: "harness-error", Key: "w5-holder", Case: caseTxt, Detail: err.Error()})
+					return
+				}
+				cctx, ccancel := context.WithCancel(ctx)
+				defer ccancel()
+				inAttempt := make(chan struct{})
+				release := make(chan struct{})
+				var once sync.Once
+				w.gates[1].before = func(op, name string) {
+					if op == "Mkdir" && filepath.Clean(name) == w.sh.lockPath {
+						first := false
+						once.Do(func() { first = true; close(inAttempt) })
+						if first {
+							<-release // the attempt stays in flight until the context has ended
+						}
+					}
+				}
+				res := make(chan error, 1)
+				go func() {
+					if how == "Lock+cancel" {
+						res <- w.locks[1].Lock(cctx)
+					} else {
+						res <- w.locks[1].LockWithTimeout(ctx, 30*time.Millisecond)
+					}
+				}()
+				select {
+				case <-inAttempt:
+				case <-time.After(3 * time.Second):
+				}
+				if how == "Lock+cancel" {
+					ccancel()
+				} else {
+					time.Sleep(60 * time.Millisecond) // the timeout passes while the Mkdir is pending
+				}
+				close(release)
+				var lerr error
+				select {
+				case lerr = <-res:
+				case <-time.After(5 * time.Second):
+					lerr = fmt.Errorf("Lock did not return")
+				}
+				time.Sleep(20 * time.Millisecond)
+				_, statErr := w.inner.Stat(w.sh.lockPath)
+				third := w.locks[2].TryLock(ctx)
+				rep.Eval(caseTxt, true)
+				rep.Hist("w5:" + how)
+				if lerr == nil || statErr != nil || third == nil {
+					rep.Fail(hx.Failure{Kind: "impl-violates-property", Key: "contender-giving-up-releases-the-holders-lock", Case: caseTxt,
+						Expected: "the contender gets an error, the holder's lock directory stays, a third contender is refused",
+						Observed: fmt.Sprintf("contender: %v; lock directory: %v; third contender's TryLock: %v; events: %s", lerr, statErr, third, w.eventsLine())})
+				}
+				for _, i := range []int{0, 2} {
+					w.sh.begin(i)
+					_ = w.locks[i].Unlock(ctx)
+					w.sh.end(i)
+				}
+			}()
+		}
+	}
 	// ---------------- random concurrent cycles -------------------------------------------------------
 	runs := 30
 	if o.Thorough() {
